@@ -12,6 +12,11 @@
                     computed by `Function.__init__` (program.py:245-249).
   The model follows the code *with the three repairs proposed in proposed_fixes/C15-F1..F3*
   (initial `strip()`, `'` ends an infix token, unbalanced opening bracket raises).
+  The type parser takes a flag `s` ("strict"): `true` = the code with the repair proposed in
+  fixes_proposed/C15-F4.diff (a token cannot start with a closing bracket; an infix operator
+  must follow a type; at the end no `|` and no infix operator is waiting for its right
+  operand), `false` = the code without it.  The harness probes the implementation (`int ->`)
+  and asks the driver for that variant.
   Python exceptions are values of `Err`.  Core Lean only.
 -/
 import PS.Basic
@@ -69,7 +74,7 @@ def matching (text : Str) : Option Nat :=
 def isSpecial (c : Char) : Bool := c == ' ' || c == '(' || c == ')' || c == '\''
 
 /-- `__next_token__` (type_helper.py:92-111) on a non-empty text: (w, kind, index). -/
-def nextToken (text : Str) : Res (Str × Kind × Nat) :=
+def nextToken (s : Bool) (text : Str) : Res (Str × Kind × Nat) :=
   match text with
   | [] => .error .index
   | c :: rest =>
@@ -79,6 +84,8 @@ def nextToken (text : Str) : Res (Str × Kind × Nat) :=
       | some i => .ok ((text.take i).drop 1, if c = '[' then .brack else .paren, i + 1)
     else if c = '|' then .ok ([], .or, 1)
     else if !isAlpha c && c != '\'' then
+      -- C15-F4: assert text[0] not in ")]"
+      if s && (c == ')' || c == ']') then .error .assertion else
       let w := rest.takeWhile (fun d => !(isAlpha d || isSpecial d))
       .ok (c :: w, .infx, 1 + w.length)
     else
@@ -97,7 +104,7 @@ structure St where
 /-- one iteration of the `while` body (type_helper.py:152-194) for a token of kind `k` with
     text `w`; `sub` is the result of the recursive call `auto_type(w)` (only used for
     parenthesis and bracket tokens). -/
-def step (k : Kind) (w : Str) (sub : Res TyO) (st : St) : Res St := do
+def step (s : Bool) (k : Kind) (w : Str) (sub : Res TyO) (st : St) : Res St := do
   let st ← (match k with
     | .paren => do
         let t ← sub
@@ -125,7 +132,10 @@ def step (k : Kind) (w : Str) (sub : Res TyO) (st : St) : Res St := do
               else pure { st with stack := .node (.generic w false) [top] :: rest }
           else pure { st with stack := TyO.prim w :: st.stack }
         else pure st
-    | .infx => pure { st with lastInfix := st.lastInfix + 1, infixStack := w :: st.infixStack }
+    | .infx =>
+        -- C15-F4: assert len(stack) == last_infix + 1
+        if s && st.stack.length != st.lastInfix + 1 then .error .assertion
+        else pure { st with lastInfix := st.lastInfix + 1, infixStack := w :: st.infixStack }
     | .or => pure { st with orFlag := 0 } : Res St)
   -- "Manage or flags which consume things as they come"
   if st.orFlag = 0 then pure { st with orFlag := 1 }
@@ -144,36 +154,41 @@ def finishLoop : List TyO → List Str → Res TyO
     | [] => .error .index                                           -- infix_stack.pop()
     | w :: ws => finishLoop (mkInfix w prev last :: rest) ws
 
-def finish (st : St) : Res TyO := finishLoop st.stack st.infixStack
+/-- after the loop: `assert len(stack) >= 1`, with the repair of C15-F4 also
+    `assert or_flag < 0` and `assert len(stack) == last_infix + 1`, then the folding loop -/
+def finish (s : Bool) (st : St) : Res TyO :=
+  if s && st.stack.length != 0 && (decide (st.orFlag ≥ 0) || st.stack.length != st.lastInfix + 1)
+  then .error .assertion
+  else finishLoop st.stack st.infixStack
 
 /-- the `while len(text) > 0` loop; `rec` is `auto_type` on enclosed texts; `fuel` bounds the
     number of iterations (each consumes at least one character). -/
-def loopC (rec : Str → Res TyO) : Nat → Str → St → Res St
+def loopC (s : Bool) (rec : Str → Res TyO) : Nat → Str → St → Res St
   | 0, _, _ => .error .fuel
   | fuel + 1, text, st =>
     if text = [] then .ok st else
-    match nextToken text with
+    match nextToken s text with
     | .error e => .error e
     | .ok (w, k, index) =>
       let sub : Res TyO := match k with
         | .paren => rec w
         | .brack => rec w
         | _ => .error .fuel
-      match step k w sub st with
+      match step s k w sub st with
       | .error e => .error e
-      | .ok st' => loopC rec fuel (strip (text.drop index)) st'
+      | .ok st' => loopC s rec fuel (strip (text.drop index)) st'
 
 /-- `auto_type(el)` for a string (type_helper.py:138-206); `depth` bounds the nesting of
     recursive calls. -/
-def autoType : Nat → Str → Res TyO
+def autoType (s : Bool) : Nat → Str → Res TyO
   | 0, _ => .error .fuel
   | depth + 1, el =>
-    match loopC (autoType depth) (el.length + 1) (strip el) {} with
+    match loopC s (autoType s depth) (el.length + 1) (strip el) {} with
     | .error e => .error e
-    | .ok st => finish st
+    | .ok st => finish s st
 
 /-- what the driver runs: enough fuel for every text -/
-def autoTypeText (el : Str) : Res TyO := autoType (el.length + 1) el
+def autoTypeText (s : Bool) (el : Str) : Res TyO := autoType s (el.length + 1) el
 
 /-! ### the same machine on a token tree -/
 
@@ -186,31 +201,31 @@ def kindOf : TokL → Kind × Str
   | .brack => (.brack, [])
 
 mutual
-  def autoTypeToks : List Tok → Res TyO
-    | ts => match loopT ts {} with
+  def autoTypeToks (s : Bool) : List Tok → Res TyO
+    | ts => match loopT s ts {} with
       | .error e => .error e
-      | .ok st => finish st
-  def loopT : List Tok → St → Res St
+      | .ok st => finish s st
+  def loopT (s : Bool) : List Tok → St → Res St
     | [], st => .ok st
     | t :: ts, st =>
-      match stepT t st with
+      match stepT s t st with
       | .error e => .error e
-      | .ok st' => loopT ts st'
-  def stepT : Tok → St → Res St
+      | .ok st' => loopT s ts st'
+  def stepT (s : Bool) : Tok → St → Res St
     | .node l ks, st =>
       let sub : Res TyO := match l with
-        | .paren => autoTypeToks ks
-        | .brack => autoTypeToks ks
+        | .paren => autoTypeToks s ks
+        | .brack => autoTypeToks s ks
         | _ => .error .fuel
-      step (kindOf l).1 (kindOf l).2 sub st
+      step s (kindOf l).1 (kindOf l).2 sub st
 end
 
 /-- character level tokenizer: the token tree that `auto_type`'s loop walks through -/
-def tokenizeLoop (rec : Str → Res (List Tok)) : Nat → Str → Res (List Tok)
+def tokenizeLoop (s : Bool) (rec : Str → Res (List Tok)) : Nat → Str → Res (List Tok)
   | 0, _ => .error .fuel
   | fuel + 1, text =>
     if text = [] then .ok [] else
-    match nextToken text with
+    match nextToken s text with
     | .error e => .error e
     | .ok (w, k, index) =>
       let t : Res Tok := match k with
@@ -223,13 +238,13 @@ def tokenizeLoop (rec : Str → Res (List Tok)) : Nat → Str → Res (List Tok)
       match t with
       | .error e => .error e
       | .ok t =>
-        match tokenizeLoop rec fuel (strip (text.drop index)) with
+        match tokenizeLoop s rec fuel (strip (text.drop index)) with
         | .error e => .error e
         | .ok ts => .ok (t :: ts)
 
-def tokenize : Nat → Str → Res (List Tok)
+def tokenize (s : Bool) : Nat → Str → Res (List Tok)
   | 0, _ => .error .fuel
-  | depth + 1, el => tokenizeLoop (tokenize depth) (el.length + 1) (strip el)
+  | depth + 1, el => tokenizeLoop s (tokenize s depth) (el.length + 1) (strip el)
 
 /-! ## Part 2 — programs -/
 
